@@ -11,6 +11,10 @@ CHECKS = {
    "bounded exhaustive operation-sequence exploration of the real Client/Handler against a reference model (the sent slice)",
    "Every message sequence up to the stated length over an alphabet of boundary shapes (zero-value, small, 512 B pool seed +-1, compress-min-bytes +-1, 8 MiB recycle cap +-1) is run through real clients and handlers in every protocol x codec x compression x RPC kind x HTTP version x request-window configuration, with one shared Client/Handler per configuration so earlier calls leave state behind; the oracle is equality with the sent slice plus a clean end of stream. Exhaustive within the bounds, so it decides the property for all small histories rather than a sample.",
    "memhttp is a legal stand-in for net/http (cross-checked on real loopback h1/h2 in the thorough tier); payload codecs proto/protojson trusted; sequence length and payload sizes bounded"),
+ "C14": ("model_checking", "DESIGN.md 4/C14",
+   "stateless model checking of the real client/handler under a controlled scheduler (testing/synctest bubble + yield points), delay-bounded exhaustive schedule enumeration, against a two-process FIFO reference model",
+   "Every admissible pair of a client program over {Send, CloseRequest, Receive, CloseResponse, cancel} and a handler program {receive i, send j, drain?, nil|error}, in each protocol and request-window mode, is executed on the real library under a scheduler that owns every interleaving decision; every schedule with at most d delays at the library's and the environment's yield points is enumerated (d=1 quick, d=2 thorough - the property's 'every single point, every pair'). Oracles: no deadlock (decided by quiescence, not wall-clock), no library goroutine left, response body closed, handler sees EOF after CloseRequest, Sends after the end fail with io.EOF, Receive sequence equals the reference model, errors are sticky.",
+   "memhttp models the RoundTripper/Handler contract; schedules inside the real net/http stack are not explored; statement-granular sequentially consistent interleavings; delay bound and program length bounded"),
 }
 
 PENDING = {
